@@ -268,5 +268,18 @@ pub fn run(ctx: &Arc<Ctx>) {
     ctx.sample(serde_json::to_value(&cases[3]).unwrap());
     ctx.sample(serde_json::to_value(&cases[cases.len() - 1]).unwrap());
     run_cases(ctx, &cases, 4, eval);
-    let _ = json!(0);
+    {
+        let mut items = Vec::new();
+        for (ks, id) in [(&masters[0].1, "Alice"), (&masters[3].1, "Alice"), (&masters[0].1, "len:13"), (&masters[3].1, "len:13")] {
+            items.push(Case::Verify { ks: hexbig(ks), id: id.into(), msg_len: 20, r: hexbig(&rs[5].1), forge: "none".into() });
+        }
+        // a signature made under master A presented under master B's public key must be refused wherever it sits in the sequence
+        let cross = Case::Verify { ks: hexbig(&masters[0].1), id: "Alice".into(), msg_len: 20, r: hexbig(&rs[5].1), forge: "other-master-public-key".into() };
+        let mut seqs = permutations(&items);
+        for p in permutations(&[items[0].clone(), cross.clone(), items[1].clone(), items[2].clone()]) {
+            seqs.push(p);
+        }
+        ctx.cov("related_input_sequences", json!(seqs.len()));
+        run_sequences(ctx, &seqs, eval);
+    }
 }
